@@ -22,7 +22,7 @@ Import ListNotations.
 Fixpoint first_disabled (cf : cfg) (t : st) (ops : list op) (n : nat) : option nat :=
   match ops with [] => None | o :: r => if enabled cf t o then first_disabled cf (step cf t o) r (S n) else Some n end.
 """
-CT = 200            # connect_timeout (ms)
+CT = 400            # connect_timeout (ms)
 HCT = 300           # healthcheck_timeout
 SETTLE = 50         # quiescence: sleep before sampling
 SHOWS = ["POOLS", "CLIENTS", "SERVERS", "LISTS", "STATS"]
@@ -203,7 +203,7 @@ class Hist:
             # sample while the client is blocked in pool.get, then again when it is over
             self.steps.append({"op": "spawn", "task": lab, "steps": [send, recv]})
             self.steps.append({"op": "sleep", "ms": 30})
-            self.sample({"kind": "req_start", "c": c, "proto": proto})
+            self.sample({"kind": "req_start", "c": c, "proto": proto, "req": entry})
             self.steps.append({"op": "join", "task": lab, "timeout_ms": to + 1000})
             entry["started"] = True
         else:
@@ -231,6 +231,8 @@ class Hist:
                 x["fails"] += 1
                 if self.w["limit"] and x["fails"] >= self.w["limit"]:
                     x["alive"] = False
+        elif self.w["addrs"][x["hold"]]["backend"] in self.down:
+            self._gone(c)                 # its server is dead: the request kills the client
         else:
             if what in ("commit", "rollback"):
                 x["intxn"] = False
@@ -275,13 +277,14 @@ class Hist:
         """pool exhausted: c asks, is sampled waiting, closes its socket, is sampled again, and again after the timeout"""
         x = self.cl[c]
         t = self.tag(c)
+        lab = "w%d" % len(self.steps)
         self.steps.append({"op": "send", "c": c, "msgs": [{"t": "Q", "sql": "SELECT 1 " + t}]})
-        self.steps.append({"op": "sleep", "ms": 20})
-        self.sample({"kind": "req_start", "c": c, "proto": "Q"})
+        self.steps.append({"op": "recv", "c": c, "until": "Z", "timeout_ms": 40, "label": lab})
+        self.sample({"kind": "req", "c": c, "proto": "Q", "what": "select", "tag": t, "rlabel": lab, "maybe_waiting": True})
         self.steps.append({"op": "close", "c": c})
-        self.sample({"kind": "noop", "c": c, "what": "socket closed while the task is inside pool.get"})
+        self.sample({"kind": "leave", "c": c, "how": "close", "maybe_waiting": True})
         self.steps.append({"op": "sleep", "ms": CT + 100})
-        x["alive"] = False
+        self._gone(c)
         self.sample({"kind": "waiting_gone", "c": c})
 
     def backend(self, b, mode):
@@ -565,6 +568,7 @@ class Derive:
         self.notes = []
         self.outcomes = []
         self.prev_tasks, self.new_tasks = [], []
+        self.done_req = set()
 
     def cid(self, c):
         return self.h.cl[c]["id"]
@@ -610,6 +614,7 @@ class Derive:
         cur = self.snaps[entry["label"]].get("task_results", [])
         self.new_tasks = cur[len(self.prev_tasks):]      # how the client tasks that ended in this segment ended
         self.prev_tasks = cur
+        self.cur_hi = hi
         win = [e for e in self.ev if lo < e["seq"] <= hi]
         # server connections opened in this segment
         for e in win:
@@ -656,6 +661,14 @@ class Derive:
 
     def k_req_start(self, entry, ops, drops):
         c = entry["c"]
+        req = entry.get("req")
+        if req is not None:
+            ev = self.recv_by_label.get(req["rlabel"])
+            if ev is not None and ev["seq"] <= self.cur_hi:
+                # the reply was there before the sample: the client was not made to wait
+                self.k_req(req, ops, drops)
+                self.done_req.add(req["rlabel"])
+                return
         if c not in self.held and not self.inchk.get(c):
             ops.append("CheckoutStart %d" % self.cid(c))
             self.inchk[c] = True
@@ -676,8 +689,14 @@ class Derive:
 
     def k_req(self, entry, ops, drops):
         c, cid = entry["c"], self.cid(entry["c"])
+        if entry["rlabel"] in self.done_req:
+            return
         ev = self.recv_by_label.get(entry["rlabel"])
         cls, limit_hit, zs = self.classify(ev)
+        if entry.get("maybe_waiting") and cls == "silent" and ev and ev.get("outcome") == "timeout":
+            if self.phase.get(c) == "handle":
+                self.k_req_start({"c": c}, ops, drops)    # no answer yet: the task is inside pool.get
+            return
         self.outcomes.append(("req", entry["what"], "held" if c in self.held else "free", cls))
         if self.phase.get(c) != "handle":
             return
@@ -762,6 +781,8 @@ class Derive:
         c = entry["c"]
         if self.phase.get(c) != "handle":
             return
+        if entry.get("maybe_waiting") and self.inchk.get(c):
+            return     # the socket is closed but the task is still inside pool.get: nothing changes yet
         s = self.held.get(c)
         if s is not None and self.intxn.get(c) and not self.srv[s]["balive"]:
             # the ROLLBACK of checkin_cleanup() fails on the dead server: handle() returns Err, the server is dropped
